@@ -117,6 +117,33 @@ Proof.
   exact (ref_hash_injective digest V H Hinj (root t1) (root t2) E).
 Qed.
 
+(* ---------------- C03 / C10 small corollaries ---------------- *)
+Theorem C03_different_content_different_hash (Hinj : forall a b, H a = H b -> a = b) ops1 ops2 t1 t2 :
+  run ops1 = Ok t1 -> run ops2 = Ok t2 -> final_map ops1 <> final_map ops2 ->
+  snd (mst_root_hash t1) <> snd (mst_root_hash t2).
+Proof. intros R1 R2 Hne E. apply Hne. exact (C03_injective Hinj ops1 ops2 t1 t2 R1 R2 E). Qed.
+
+Fixpoint mlookup (k : N) (l : list (N * V)) : option V :=
+  match l with [] => None | (k', v) :: r => if k =? k' then Some v else mlookup k r end.
+Lemma mlookup_ins k v m k' : mlookup k' (ins V k v m) = if k' =? k then Some v else mlookup k' m.
+Proof.
+  induction m as [|[k0 v0] m IH]; cbn [TreeUpsert.ins mlookup]; [destruct (k' =? k); reflexivity|].
+  destruct (k <? k0) eqn:E1; [cbn [mlookup]; destruct (k' =? k); reflexivity|].
+  destruct (k =? k0) eqn:E2.
+  - apply N.eqb_eq in E2. subst k0. cbn [mlookup]. destruct (k' =? k); reflexivity.
+  - cbn [mlookup]. destruct (k' =? k0) eqn:E3; [|exact IH]. apply N.eqb_eq in E3. subst k0.
+    replace (k' =? k) with false; [reflexivity|]. symmetry. apply N.eqb_neq. apply N.eqb_neq in E2. congruence.
+Qed.
+(* upserting k stores exactly v under k and leaves the stored digest of every other key untouched *)
+Theorem C10_upsert_pointwise ops t k v : run ops = Ok t ->
+  exists t', mst_upsert t k (lvl_of k) v = Ok t' /\
+    forall k', mlookup k' (content (root t')) = if k' =? k then Some v else mlookup k' (content (root t)).
+Proof.
+  intros R. destruct (run_Inv _ _ R) as (Hi & _).
+  destruct (mst_upsert_spec digest V H lvl_of lvl_of_u8 t k v Hi) as (t' & E & _ & Hc & _).
+  exists t'. split; [exact E|]. intros k'. rewrite Hc. apply mlookup_ins.
+Qed.
+
 (* ---------------- LevelSpec reference construction over histories ---------------- *)
 Theorem C14_reference ops t : run ops = Ok t ->
   snd (mst_root_hash t) = ref_hash (strip (root t)) /\
